@@ -315,7 +315,7 @@ func init() {
 		Level: "exploration",
 		Rule: "metamorphic monitor (whole vs chunked): for each input, ParseFile fed by a scripted reader must equal Parse on the same bytes in error text, diagnostics text and Dump bytes. Partitions: EVERY 2-partition for inputs <= 400 bytes, one byte per read, random k-partitions, zero-byte reads at every step position (and at every offset for inputs <= 120 bytes), data together with EOF, and the real 4096-byte pages with the page boundary swept over a 64-byte window of the program (2 and 3 pages). " +
 			"Inputs: hand-picked ones for every lexical-failure kind, multi-byte characters in strings, comments, as U+0085/U+00A0 whitespace and as stray characters, two-character operators and escapes; the repository's testdata; generated programs (valid, with static errors, token-damaged) under hostile layout. " +
-			"distinct = hash(input, read log); non-trivial = at least two non-empty chunks were delivered Also: 170 non-consecutive zero-byte reads; irregular prime-sized reads; tokens longer than a read page (strings, identifiers, numbers, comments); pieces restarting at each long token; stray 4-byte characters, a byte order mark and bare Latin-1 blank bytes in the fixed inputs.",
+			"distinct = hash(input, read log); non-trivial = at least two non-empty chunks were delivered Also: 170 non-consecutive zero-byte reads; irregular prime-sized reads; tokens longer than a read page (strings, identifiers, numbers, comments); pieces restarting at each long token; record-aligned inputs (long string statements and reads all multiples of 16/64/256/512 bytes, so buffer lengths recur); stray 4-byte characters, a byte order mark and bare Latin-1 blank bytes in the fixed inputs.",
 		Assumptions:   []string{"Parse on the whole input is the reference", "thorough tier repeats the workload under the race detector build"},
 		MinNontrivial: 1000,
 		RaceAlso:      func(tier string) bool { return tier == "thorough" },
@@ -396,6 +396,41 @@ func init() {
 					whole := wholeOutcome(src, "in.bcl")
 					if whole.pan == "" {
 						c07Try(c, src, whole, st, "pieces_restarting_at_each_long_token")
+					}
+				}
+				i++
+				// record-aligned inputs: every statement (a long string token) and every read is a multiple
+				// of one unit, so the reader's buffer passes through the same few lengths again and again
+				if c.Mine(i) {
+					r := c.Rand(i)
+					u := []int{16, 64, 256, 512}[r.Intn(4)]
+					var b strings.Builder
+					for t, m := 0, 6+r.Intn(6); t < m; t++ {
+						ln := u * ((4105+u-1)/u + r.Intn(5000/u)) // "print " + token + "\n"
+						b.WriteString("print \"" + strOfLen(ln-9, nil) + "\"\n")
+					}
+					src := []byte(b.String())
+					c.Begin(i)
+					whole := wholeOutcome(src, "in.bcl")
+					if whole.pan == "" {
+						for try, tn := 0, c.Pick(12, 60); try < tn; try++ {
+							var st []mon.Step
+							lead := u * r.Intn(4096/u) // where the first long read starts, inside token 1
+							if lead > 0 {
+								st = append(st, mon.Step{N: lead})
+							}
+							for sum := lead; sum < len(src); {
+								k := u * (1 + r.Intn(4096/u))
+								if r.Intn(3) == 0 {
+									k = 4096
+								}
+								st = append(st, mon.Step{N: k})
+								sum += k
+							}
+							if !c07Try(c, src, whole, st, "aligned_reads_over_aligned_long_tokens") {
+								break
+							}
+						}
 					}
 				}
 				i++
